@@ -21,10 +21,12 @@ for d in sorted(glob.glob(os.path.join(ROOT, "seeded", "*"))):
                         keys.append(k)
     def cell(x):
         return (x or "").replace("|", "\\|").replace("\n", " ")
+    if m.get("rebased"):
+        name = name + " (also patch_rebased.diff)"
     rows.append(f"| {name} | {cell(m.get('summary'))[:400]} | {cell(m.get('needs'))[:300]} | demo {cb.get('demo_clean_exit')}/{cb.get('demo_mutated_exit')}, suite {'kept' if cb.get('suite_no_stable_test_lost') else cb.get('suite_no_stable_test_lost')} | {', '.join(det) or 'MISSED'} | {cell('; '.join(keys[:3]))[:200]} |")
 with open(os.path.join(ROOT, "seeded", "README.md"), "w") as f:
     f.write("# Seeded faults kept after confirmation\n\n")
-    f.write("Each directory holds `patch.diff` (applies to /repo HEAD at the time of confirmation), `demo.py` (exit 0 on the clean tree, 1 with the patch) and `meta.json`.\n")
+    f.write("Each directory holds `patch.diff` (applies to /repo HEAD at the time of confirmation; where a later `fix:` commit rewrote the surrounding code, `patch_rebased.diff` is the same change on the later tree, see `meta.json` → `rebased`), `demo.py` (exit 0 on the clean tree, 1 with the patch) and `meta.json`.\n")
     f.write("Authors: independent sub-agents that saw only the property text and their own scratch worktree. Confirmed with `tools/keep_seed.py` (demo clean / mutated, pinned suite: no stably passing test lost, registered quick check with seed 1 against the patched worktree).\n")
     f.write("None of these changes is ever applied to /repo itself. Regenerate this table with `python3 tools/seedtable.py`.\n\n")
     f.write("| seed | change | needs | confirmation (demo clean/mutated, suite) | detected by | violation keys reported |\n|---|---|---|---|---|---|\n")
